@@ -157,6 +157,18 @@
 #endif
 
 ////////////////////////////////////////////////////////////////////////////////
+// verification hook H3 (off unless JOHNMCFARLANE_CNL_VERIF is defined):
+// lets a harness count iterations of data-dependent loops
+
+#if defined(JOHNMCFARLANE_CNL_VERIF)
+extern "C" void johnmcfarlane_cnl_verif_tick_hook(int loop_id);
+// NOLINTNEXTLINE(cppcoreguidelines-macro-usage)
+#define JOHNMCFARLANE_CNL_VERIF_TICK(LOOP_ID) \
+    (__builtin_is_constant_evaluated() ? static_cast<void>(0) \
+                                       : johnmcfarlane_cnl_verif_tick_hook(LOOP_ID))
+#endif
+
+////////////////////////////////////////////////////////////////////////////////
 // int-to-string macro
 
 #define CNL_STR_HELPER(x) #x  // NOLINT(cppcoreguidelines-macro-usage)
